@@ -266,7 +266,9 @@ class Logic(object):
         return not (self == other)
 
     def __lt__(self, other):
-        return (self != other) and (self.__le__(other))
+        # Strictly less expressive (two logics that differ only in the
+        # name are not below each other)
+        return self.__le__(other) and not other.__le__(self)
 
     def __le__(self, other) -> bool:
         return (self.theory <= other.theory and
@@ -808,7 +810,7 @@ def get_closer_logic(supported_logics: Iterable[Logic], logic: Logic) -> Logic:
 
     # We remove from the candidates, the logics that subsume another candidate
     # (i.e. that are more general) because we are looking for the closer logic
-    res = [l for l in candidates if not any(l != k and k <= l for k in candidates)]
+    res = [l for l in candidates if not any(k < l for k in candidates)]
 
     # There might be multiple incomparable logics that are closer, we
     # deterministically select the one having a lexicographically smaller name
